@@ -323,6 +323,15 @@ class Group:
             text = "pub exec const %s: &'static [u8] ensures %s@ == %s { %s() }" % (cm.group(1), cm.group(1), seq, cm.group(2))
             log.append({"rule": "R16-bytes-const", "name": cm.group(1)})
         for d, arg, dl in subs:
+            if d == "exec_const":
+                # `pub const N: T = E;` -> `pub exec const N: T ensures <contract> { E }`  (Verus consts are dual-mode;
+                # an exec const may call exec functions; the initialiser expression stays the repo's)
+                cm2 = re.match(r"\s*pub const (\w+): (.*?) = (.*);\s*$", text, re.S)
+                if not cm2:
+                    raise Undecided("exec_const: %s :: %s is not a plain const item" % (relf, ipath))
+                text = "pub exec const %s: %s ensures %s { %s }" % (cm2.group(1), cm2.group(2), arg, cm2.group(3))
+                log.append({"rule": "exec-const", "name": cm2.group(1)})
+        for d, arg, dl in subs:
             if d == "attr":
                 self.out.emit(arg, {"kind": "tmpl", "file": tmpl, "line": tline})
         self.rewrites += [dict(x, item="%s::%s" % (relf, ipath)) for x in log]
